@@ -133,7 +133,7 @@ def job_str(job):
 def c05_oracle(text, types, puml="x"):
     problems = []
     try:
-        ast, info = dsl.strict_parse(text)
+        ast, info = dsl.strict_parse(text, input_types=set(types))
     except dsl.Bad as e:
         return [["malformed", str(e)]]
     if info["name"] != puml:
